@@ -15,6 +15,9 @@
                 Proofs.SsaFuel.into_ssa_never_out_of_fuel             (C01_into_ssa_fuel_suffices)
                 with Proofs.MirrorsDom.lifted_children_facts          (bridge: C15_idom_exact, C15_idom_unique, C12_dom_implies_le)
      clean      Proofs.SsaClean.into_ssa_keeps_clean                  (bridge: no value claim before / after SSA)
+     unique     Proofs.SsaLocalDefs.into_ssa_ldefs_unique             (bridge: C14_construction_unique_defs + the tree walk
+                                                                       reaches every block (Proofs.SsaDomBridge, C15) + the tag
+                                                                       invariant => one defining assignment per local)
      propagate  Proofs.PropagateTotal.propagate_completes             (C20_propagate_completes)
 
    What remains a hypothesis is collected in [program_ok] below. *)
@@ -23,7 +26,8 @@ Require Import Model.Ast Model.Desugar Spec.ExpandSpec Proofs.DesugarTotal.
 Require Model.Base Model.PipelineMirrors Model.Lift Model.LiftFull Model.Dom Model.Ir Model.Ssa Model.Propagate Model.Justify
         Model.Clean Model.Includes Spec.DomSpec.
 Require Proofs.DesugarProofs Proofs.LiftTotalFlat Proofs.MirrorsShape Proofs.MirrorsDom Proofs.SsaNoPanic
-        Proofs.SsaFuel Proofs.SsaClean Proofs.PropagateTotal Proofs.IncludesNoPanic Proofs.LiftFullTotal Proofs.LiftFullIr.
+        Proofs.SsaFuel Proofs.SsaClean Proofs.PropagateTotal Proofs.IncludesNoPanic Proofs.LiftFullTotal Proofs.LiftFullIr
+        Proofs.SsaConstruction Proofs.SsaLocalDefs Proofs.SsaDomBridge Model.SsaPre.
 Import ListNotations.
 Local Open Scope list_scope.
 
@@ -45,14 +49,15 @@ Section Chain.
   Notation analyse_template := (PM.analyse_template ord horder p kv kd).
   Notation analyse_function := (PM.analyse_function ord horder p kv kd).
   Notation analyse_program := (PM.analyse_program ord horder p kv kd).
-  Notation body_ok := (PM.body_ok ord horder).
+  Notation body_ok := PM.body_ok.
 
   (* ---- the hypotheses ---- *)
   (* [PM.body_ok] (Model.PipelineMirrors; decidable, extracted, evaluated on every explored
      definition) is what remains a hypothesis about a body handed to lifting:
        names_distinct  the declaration keys after the renaming pass are pairwise different
        stmt_lits_ok    number literals are non-negative
-       ssa_output_ok   one defining assignment per local in the graph into_ssa returns *)
+     (one defining assignment per local in the graph into_ssa returns -- formerly the third
+     clause, a hypothesis about the mirror's own output -- is proved: [lifted_ssa_output_ok]) *)
 
   (* a template as the parser hands it on: C18's wf_template, initialisation blocks
      hold declarations and (multi-)substitutions, and the desugared body meets [body_ok] *)
@@ -78,40 +83,77 @@ Section Chain.
   Hypothesis Hp3 : (Z.log2 p < 2 ^ 64)%Z.
 
   (* ---- the rest of the chain on a graph the lifting mirror returned ---- *)
-  Lemma analyse_lifted_fine d body r :
-    LiftFull.try_lift_impl (PM.d_kind d) (PM.d_params d) (PM.d_pfile d) (PM.d_ploc d) body = Base.Ok r ->
-    PM.stmt_lits_ok body = true -> PM.ssa_output_ok ord horder d body = true ->
-    fine (analyse_cfg (LiftFull.erase_cfg (LiftFull.l_cfg r))).
+  (* what the SSA stage is handed and what it hands on, for a graph the lifting mirror returned *)
+  Lemma lifted_ssa_facts kind params pfile ploc body r :
+    LiftFull.try_lift_impl kind params pfile ploc body = Base.Ok r ->
+    let c := LiftFull.erase_cfg (LiftFull.l_cfg r) in
+    exists t, ssa_of c = Base.Ok (PM.idom_table t, Ssa.into_ssa (PM.sets_of horder (Dom.dt_frontier t))
+                                                                (PM.sets_of horder (Dom.dt_children t)) c) /\
+              Ssa.into_ssa (PM.sets_of horder (Dom.dt_frontier t)) (PM.sets_of horder (Dom.dt_children t)) c <> Ssa.SPanic /\
+              Ssa.into_ssa (PM.sets_of horder (Dom.dt_frontier t)) (PM.sets_of horder (Dom.dt_children t)) c <> Ssa.SFuel /\
+              forall c1, Ssa.into_ssa (PM.sets_of horder (Dom.dt_frontier t)) (PM.sets_of horder (Dom.dt_children t)) c = Ssa.SOk c1 ->
+                         Justify.ldefs_unique (Justify.all_stmts (Ir.c_blocks c1)) = true.
   Proof.
-    intros Er Hlits Hs.
-    assert (Ec : LiftFull.lift_to_ir (PM.d_kind d) (PM.d_params d) (PM.d_pfile d) (PM.d_ploc d) body
-                 = Base.Ok (LiftFull.erase_cfg (LiftFull.l_cfg r))).
+    intros Er c.
+    assert (Ec : LiftFull.lift_to_ir kind params pfile ploc body = Base.Ok c).
     { unfold LiftFull.lift_to_ir. rewrite Er. reflexivity. }
-    set (c := LiftFull.erase_cfg (LiftFull.l_cfg r)) in *.
-    unfold PM.ssa_output_ok in Hs. rewrite Ec in Hs.
     set (key := fun _ : Ir.meta => 0%nat).
     destruct (LiftFullIr.lifted_dom key _ _ _ _ _ _ Er) as (Hg & Hdom & Hlen).
     set (g := map (LiftFull.skel_block key) (LiftFull.xc_blocks (LiftFull.l_cfg r))) in *.
     fold c in Hdom, Hlen.
     destruct (MirrorsDom.lifted_tree _ g Hg ord Hord) as (t & Ht).
+    exists t.
     set (frontier := PM.sets_of horder (Dom.dt_frontier t)).
     set (children := PM.sets_of horder (Dom.dt_children t)).
-    assert (E2 : ssa_of c = Base.Ok (PM.idom_table t, Ssa.into_ssa frontier children c)).
-    { unfold PM.ssa_of. rewrite Hdom, Ht. reflexivity. }
-    unfold PM.analyse_cfg. rewrite E2 in Hs |- *.
+    split; [unfold PM.ssa_of; rewrite Hdom, Ht; reflexivity|].
     destruct (MirrorsDom.lifted_children_facts _ g Hg ord Hord t Ht horder Hh) as (K1 & K2 & K3).
     fold children in K1, K2, K3. rewrite <- Hlen in K1.
     assert (Hn : (0 < length (Ir.c_blocks c))%nat).
     { rewrite Hlen. exact (MirrorsDom.lifted_nonempty _ g Hg). }
     pose proof (LiftFullIr.lifted_unversioned _ _ _ _ _ _ Ec) as Hu.
     pose proof (LiftFullIr.lifted_written_declared _ _ _ _ _ _ Ec) as Hd.
-    pose proof (SsaNoPanic.into_ssa_never_panics_tree frontier children c Hu Hn K1 K2 K3) as NP.
-    pose proof (SsaFuel.into_ssa_never_out_of_fuel frontier children c Hu Hd Hn K1) as NF.
-    destruct (Ssa.into_ssa frontier children c) as [c1| | |] eqn:Essa; [|exact I|contradiction|contradiction].
-    pose proof (SsaClean.into_ssa_keeps_clean frontier children c c1
-                  (LiftFullIr.lifted_clean _ _ _ _ _ _ Hlits Ec) Essa) as Hclean.
-    rename Hs into Huniq.
-    destruct (PropagateTotal.propagate_completes p Hp1 Hp2 Hp3 kv kd (PM.idom_table t) c1 Hclean Huniq) as (c2 & ->). exact I.
+    split; [exact (SsaNoPanic.into_ssa_never_panics_tree frontier children c Hu Hn K1 K2 K3)|].
+    split; [exact (SsaFuel.into_ssa_never_out_of_fuel frontier children c Hu Hd Hn K1)|].
+    intros c1 Essa.
+    (* the tree walk reaches every block: the pre-order of an immediate-dominator tree holds every block (C15 via
+       Proofs.SsaDomBridge.c15_children_tree); graph_of / sets_of there are dom_of_ir / sets_of here *)
+    assert (Hroot : DomSpec.rooted (SsaDomBridge.graph_of c)).
+    { change (SsaDomBridge.graph_of c) with (PM.dom_of_ir c). rewrite Hdom. exact (MirrorsDom.lifted_rooted _ g Hg). }
+    assert (Ht' : Dom.dominator_tree (Dom.dom_fuel (SsaDomBridge.graph_of c)) ord (SsaDomBridge.graph_of c) = Base.Ok t).
+    { change (SsaDomBridge.graph_of c) with (PM.dom_of_ir c). rewrite Hdom. exact Ht. }
+    pose proof (SsaDomBridge.c15_children_tree c Hroot ord Hord t Ht' horder Hh) as Htree.
+    change (SsaDomBridge.sets_of horder (Dom.dt_children t)) with children in Htree.
+    unfold SsaPre.children_treeb in Htree. apply andb_prop in Htree. destruct Htree as [_ Hcov].
+    apply SsaConstruction.children_coverb_spec in Hcov.
+    exact (SsaLocalDefs.into_ssa_ldefs_unique frontier children c c1 Hu (LiftFullIr.lifted_tags_ok _ _ _ _ _ _ Ec) Hcov Essa).
+  Qed.
+
+  (* the former hypothesis ssa_output_ok holds of every body *)
+  Theorem lifted_ssa_output_ok d body : PM.ssa_output_ok ord horder d body = true.
+  Proof.
+    unfold PM.ssa_output_ok, LiftFull.lift_to_ir.
+    destruct (LiftFull.try_lift_impl (PM.d_kind d) (PM.d_params d) (PM.d_pfile d) (PM.d_ploc d) body) as [r|e|s|] eqn:Er;
+      cbn [Base.bind]; try reflexivity.
+    destruct (lifted_ssa_facts _ _ _ _ _ _ Er) as (t & E2 & _ & _ & Hu). cbv zeta in E2, Hu. rewrite E2.
+    destruct (Ssa.into_ssa _ _ _) as [c1| | |] eqn:Essa; try reflexivity. exact (Hu c1 eq_refl).
+  Qed.
+
+  Lemma analyse_lifted_fine d body r :
+    LiftFull.try_lift_impl (PM.d_kind d) (PM.d_params d) (PM.d_pfile d) (PM.d_ploc d) body = Base.Ok r ->
+    PM.stmt_lits_ok body = true ->
+    fine (analyse_cfg (LiftFull.erase_cfg (LiftFull.l_cfg r))).
+  Proof.
+    intros Er Hlits.
+    assert (Ec : LiftFull.lift_to_ir (PM.d_kind d) (PM.d_params d) (PM.d_pfile d) (PM.d_ploc d) body
+                 = Base.Ok (LiftFull.erase_cfg (LiftFull.l_cfg r))).
+    { unfold LiftFull.lift_to_ir. rewrite Er. reflexivity. }
+    destruct (lifted_ssa_facts _ _ _ _ _ _ Er) as (t & E2 & NP & NF & Hu). cbv zeta in E2, NP, NF, Hu.
+    set (c := LiftFull.erase_cfg (LiftFull.l_cfg r)) in *.
+    unfold PM.analyse_cfg. rewrite E2.
+    destruct (Ssa.into_ssa (PM.sets_of horder (Dom.dt_frontier t)) (PM.sets_of horder (Dom.dt_children t)) c)
+      as [c1| | |] eqn:Essa; [|exact I|contradiction|contradiction].
+    pose proof (SsaClean.into_ssa_keeps_clean _ _ c c1 (LiftFullIr.lifted_clean _ _ _ _ _ _ Hlits Ec) Essa) as Hclean.
+    destruct (PropagateTotal.propagate_completes p Hp1 Hp2 Hp3 kv kd (PM.idom_table t) c1 Hclean (Hu c1 eq_refl)) as (c2 & ->). exact I.
   Qed.
 
   (* ---- a body of the shape lifting accepts ---- *)
@@ -120,14 +162,14 @@ Section Chain.
     body_ok d body = true -> fine (analyse_body d body).
   Proof.
     intros Hb Hsf Hflat Hok. unfold PM.body_ok in Hok.
-    apply andb_prop in Hok. destruct Hok as [Hok Hs]. apply andb_prop in Hok. destruct Hok as [Hn Hlits].
+    apply andb_prop in Hok. destruct Hok as [Hn Hlits].
     assert (Hwf : LiftFull.definition_wf (PM.d_params d) (PM.d_pfile d) (PM.d_ploc d) body = true).
     { unfold LiftFull.definition_wf. rewrite Hb, Hsf, Hflat. exact Hn. }
     destruct (LiftFullTotal.liftfull_never_panics' (PM.d_kind d) _ _ _ _ Hwf) as [NP NF].
     unfold PM.analyse_body, LiftFull.lift_to_ir.
     destruct (LiftFull.try_lift_impl (PM.d_kind d) (PM.d_params d) (PM.d_pfile d) (PM.d_ploc d) body) as [r|e|s|] eqn:Er;
       cbn [Base.bind].
-    - exact (analyse_lifted_fine d body r Er Hlits Hs).
+    - exact (analyse_lifted_fine d body r Er Hlits).
     - exact I.
     - exact (NP s eq_refl).
     - exact (NF eq_refl).
